@@ -213,14 +213,19 @@ def check(an: Analysis) -> None:
         ob.fail(dc, None, "__deepcopy__ returns nothing")
     for r in rr:
         ob.inst(dc, r)
-        v = unwrap(ddc.inline(r.value))
+        from ..domains import comp_of
+
+        v = unwrap(r.value)
+        if isinstance(v, ast.Name) and ddc.single_value(v.id) is not None:
+            v = unwrap(ddc.single_value(v.id))
         ok = isinstance(v, ast.Call) and dotted(v.func) == "self.__class__" and not v.args and len(v.keywords) == 1 and v.keywords[0].arg is None
         if ok:
-            sh = CompShape(unwrap(v.keywords[0].value))
-            ok = sh.ok and sh.is_dict and not sh.filtered
+            sh = comp_of(ddc, v.keywords[0].value)
+            ok = sh is not None and sh.ok and sh.is_dict and not sh.filtered
             if ok:
                 it = unwrap(sh.iter)
                 names = sh.target_names()
+                val = unwrap(ddc.inline(sh.value))
                 ok = (
                     isinstance(it, ast.Call)
                     and isinstance(it.func, ast.Attribute)
@@ -229,11 +234,11 @@ def check(an: Analysis) -> None:
                     and is_name(it.func.value.func, "vars")
                     and len(names) == 2
                     and is_name(sh.key, names[0])
-                    and isinstance(unwrap(sh.value), ast.Call)
-                    and an.callee(dc, unwrap(sh.value)) == "copy.deepcopy"
-                    and len(unwrap(sh.value).args) == 2
-                    and is_name(unwrap(sh.value).args[0], names[1])
-                    and is_name(unwrap(sh.value).args[1], memo or "")
+                    and isinstance(val, ast.Call)
+                    and an.callee(dc, val) == "copy.deepcopy"
+                    and len(val.args) == 2
+                    and is_name(val.args[0], names[1])
+                    and is_name(val.args[1], memo or "")
                 )
         if not ok:
             ob.fail(dc, r, "deep copy is not the constructor applied to deepcopy(value, memo) of every attribute")
@@ -259,21 +264,43 @@ def check(an: Analysis) -> None:
         falses = [n for n in g.nodes if n.kind == "return" and isinstance(n.ast.value, ast.Constant) and n.ast.value.value is False]  # type: ignore[union-attr]
         if not falses:
             ob.fail(eq, guards[0].ast, "the class guard never answers False")
-    cmps = [r for r in eq.own_nodes() if isinstance(r, ast.Return) and not isinstance(r.value, ast.Constant)]
-    for r in cmps:
+    def attr_compare(c: ast.AST, key: str) -> bool:
+        if not (isinstance(c, ast.Compare) and len(c.ops) == 1 and isinstance(c.ops[0], (ast.Eq, ast.NotEq))):
+            return False
+        sides = [c.left, c.comparators[0]]
+        if not all(isinstance(x, ast.Call) and is_name(x.func, "getattr") and len(x.args) >= 2 and is_name(x.args[1], key) for x in sides):
+            return False
+        return {sides[0].args[0].id if isinstance(sides[0].args[0], ast.Name) else "", sides[1].args[0].id if isinstance(sides[1].args[0], ast.Name) else ""} == {"self", other}
+
+    compared = False
+    for r in [r for r in eq.own_nodes() if isinstance(r, ast.Return) and not isinstance(r.value, ast.Constant)]:
         ob.inst(eq, r)
         v = unwrap(r.value)
         ok = isinstance(v, ast.Call) and is_name(v.func, "all") and v.args and isinstance(v.args[0], (ast.GeneratorExp, ast.ListComp))
         if ok:
             sh = CompShape(v.args[0])
-            ok = sh.ok and not sh.filtered and "__ATTRIBUTES__" in ast.unparse(sh.iter) and isinstance(sh.elt, ast.Compare) and len(sh.elt.ops) == 1 and isinstance(sh.elt.ops[0], ast.Eq)
-            if ok:
-                names = sh.target_names()
-                sides = [sh.elt.left, sh.elt.comparators[0]]
-                ok = all(isinstance(s, ast.Call) and is_name(s.func, "getattr") and len(s.args) >= 2 and is_name(s.args[1], names[0]) for s in sides) and {sides[0].args[0].id if isinstance(sides[0].args[0], ast.Name) else "", sides[1].args[0].id if isinstance(sides[1].args[0], ast.Name) else ""} == {"self", other}
+            ok = sh.ok and not sh.filtered and "__ATTRIBUTES__" in ast.unparse(sh.iter) and len(sh.target_names()) == 1 and attr_compare(sh.elt, sh.target_names()[0]) and isinstance(sh.elt.ops[0], ast.Eq)
         if not ok:
             ob.fail(eq, r, "equality does not compare every attribute of __ATTRIBUTES__ between self and other")
-    if not cmps:
+        compared = compared or ok
+    for lp in [n for n in eq.own_nodes() if isinstance(n, ast.For) and "__ATTRIBUTES__" in ast.unparse(n.iter) and isinstance(n.target, ast.Name)]:
+        ob.inst(eq, lp)
+        key = lp.target.id
+        inner = [c for c in ast.walk(lp) if attr_compare(c, key)]
+        early_false = [r for r in ast.walk(lp) if isinstance(r, ast.Return) and isinstance(r.value, ast.Constant) and r.value.value is False]
+        skips = [x for x in ast.walk(lp) if isinstance(x, (ast.Break, ast.Continue))]
+        after_true = any(isinstance(r, ast.Return) and isinstance(r.value, ast.Constant) and r.value.value is True and not any(r is x for x in ast.walk(lp)) for r in eq.own_nodes())
+        if inner and early_false and not skips and after_true:
+            geq = an.cfg(eq)
+            cmpn = [n for n in geq.nodes if n.kind == "test" and n.ast in inner or (n.kind == "test" and any(c in list(ast.walk(n.ast)) for c in inner))]
+            compared = True
+            for tn in cmpn:
+                unequal_label = "F" if isinstance(inner[0].ops[0], ast.Eq) else "T"
+                # `not (a == b)` is split by the CFG: the test node holds `a == b`; unequal = its F edge
+                w = geq.search([t for t, lab in tn.succ if lab == unequal_label], lambda n: n.kind == "return" and isinstance(n.ast.value, ast.Constant) and n.ast.value.value is True, skip_node=lambda n: n.kind == "return" and n.ast.value is not None and isinstance(n.ast.value, ast.Constant) and n.ast.value.value is False, include_start=True)  # type: ignore[union-attr]
+                if w is not None:
+                    ob.fail(eq, inner[0], "an unequal attribute does not make the instances unequal", CFG.show_path(w))
+    if not compared:
         ob.fail(eq, None, "equality never compares attribute values")
 
 
